@@ -2,8 +2,8 @@
 """Self-validation helper (not part of any registered check).
    confirm_seed.py <ID> [worktree]  : confirms a seeded change made by a sub-agent in its scratch worktree
    (demo fails with the change, passes without, tree builds, touched packages' tests pass),
-   copies it to /verif/seeded/<ID>[-k]/, then applies it to /repo, runs the property's quick check,
-   and reverts /repo. Prints what the check said."""
+   copies it to /verif/seeded/<ID>[-k]/, then applies it to a scratch copy of /repo (tools/seedrun.py), runs the
+   property's quick check on the copy. Prints what the check said."""
 import json, os, subprocess, sys, shutil, time
 ROOT = os.path.dirname(os.path.dirname(os.path.abspath(__file__)))
 pid = sys.argv[1]
@@ -69,16 +69,11 @@ dst = os.path.join(ROOT, "seeded", name)
 shutil.rmtree(dst, ignore_errors=True)
 shutil.copytree(os.path.join(wt, "SEED"), dst)
 # run my check against it
-evf = os.path.join(ROOT, "evidence", pid + ".json")
-evsave = open(evf).read() if os.path.exists(evf) else None
-rc, o = sh("git -C /repo apply %s" % patch, ROOT); assert rc == 0, o
-try:
-    t0 = time.time()
-    rcc, oc = sh("python3 tools/check.py %s --tier quick" % pid, ROOT, 3000)
-finally:
-    sh("git -C /repo checkout -- .", ROOT)
-    if evsave is not None:
-        open(evf, "w").write(evsave)
+sys.path.insert(0, os.path.join(ROOT, "tools"))
+from seedrun import check_with_patch  # noqa: E402   (scratch copy of /repo; /repo itself is never touched)
+t0 = time.time()
+st, rcc, oc = check_with_patch(pid, patch, "quick", 3000)
+assert st == "ran", oc
 print("--- check exit %d in %.0fs:\n%s" % (rcc, time.time() - t0, oc[-1500:]))
 meta["confirmed"] = {"demo_with_change_rc": rc1, "demo_without_change_rc": rc2, "go_build": "ok", "suite": "go test -vet=off -count=1 ./... : no FAIL lines other than pre-existing build failures",
                      "ran": [demo, "git apply -R patch.diff; " + demo, "go build ./...", "go test -vet=off -count=1 ./..."]}
